@@ -467,4 +467,444 @@ theorem recvOn_inv {X : Nat → Prop} {s : Server} (h : SyncInvX X s) (hw : WF s
             · exact ⟨h2, o1.lst.trans q2.lst⟩
           · exact ⟨h1, o1.lst⟩
 
+/-! ### `Clients.Add` -/
+
+theorem WF.reg_unique {s : Server} (hw : WF s) {c c' : Str} {k : Nat} (h : assocGet s.clients c = some k)
+    (h' : assocGet s.clients c' = some k) : c = c' := by
+  have a := (hw.clients_valid c k (assocGet_mem _ _ _ h)).2
+  have b := (hw.clients_valid c' k (assocGet_mem _ _ _ h')).2
+  exact a.symm.trans b
+
+/-- the end of `inheritClientSession` + `Clients.Add`: `s1` is the state in which the previous session under
+    `cid` (if any) is still registered, `G` the state in which the connecting object `i` has inherited or the old
+    session was discarded -/
+theorem SyncInvX.register {s1 G : Server} {i : Nat} {cid : Str} (h : SyncInvX (· = i) s1) (hw : WF s1)
+    (hunreg : ∀ c, assocGet s1.clients c ≠ some i)
+    (hpi : ∀ p ∈ s1.pending, p.obj ≠ i)
+    (hlen : G.objs.length = s1.objs.length) (hconn : G.connOf = s1.connOf) (hcl : G.clients = s1.clients)
+    (hpend : G.pending = s1.pending) (hpk : G.parked = s1.parked) (hpe : G.parkedEarly = s1.parkedEarly)
+    (hoth : ∀ k, k ≠ i → assocGet s1.clients cid ≠ some k → QC (getObj s1 k) (getObj G k))
+    (he : ∀ e, assocGet s1.clients cid = some e → (getObj G e).stopped = true ∧ (getObj G e).takenOver = true ∧
+      (getObj G e).subs = [] ∧ (getObj G e).isOpen = false)
+    (hiG : (getObj G i).id = cid ∧ (getObj G i).takenOver = false ∧
+      (getObj G i).isOpen = (!(getObj G i).stopped) ∧ KeyOK (getObj G i) ∧
+      ((getObj s1 i).stopped = true → (getObj G i).stopped = true))
+    (hidx : IdxOK G.topics)
+    (hent1 : ∀ c f, c ≠ cid → Entry G.topics c f → Entry s1.topics c f)
+    (hent2 : ∀ f, Entry G.topics cid f → f ∈ subKeys (getObj G i)) :
+    SyncInv { G with clients := assocSet G.clients cid i } := by
+  have hcases : ∀ k, k = i ∨ (k ≠ i ∧ assocGet s1.clients cid = some k) ∨ (k ≠ i ∧ assocGet s1.clients cid ≠ some k) := by
+    intro k
+    by_cases h1 : k = i
+    · exact Or.inl h1
+    · by_cases h2 : assocGet s1.clients cid = some k
+      · exact Or.inr (Or.inl ⟨h1, h2⟩)
+      · exact Or.inr (Or.inr ⟨h1, h2⟩)
+  have hget : ∀ c, assocGet (assocSet G.clients cid i) c = if c = cid then some i else assocGet s1.clients c := by
+    intro c; rw [Mochi.Topics.assocGet_assocSet, hcl]
+  -- an object registered under another id is neither `i` nor the previous session under `cid`
+  have hother : ∀ c k, c ≠ cid → assocGet s1.clients c = some k → k ≠ i ∧ assocGet s1.clients cid ≠ some k := by
+    intro c k hc hk
+    exact ⟨fun e => hunreg c (e ▸ hk), fun hk' => hc (hw.reg_unique hk hk')⟩
+  refine ⟨hidx, ?_, ?_, ?_, ?_, ?_, ?_, ?_, ?_, ?_, ?_, ?_, ?_, ?_⟩
+  · intro c f hcf
+    show ∃ j, assocGet (assocSet G.clients cid i) c = some j ∧ f ∈ subKeys (getObj G j)
+    by_cases hc : c = cid
+    · subst hc
+      exact ⟨i, by rw [hget]; simp, hent2 f hcf⟩
+    · obtain ⟨j, hj, hf⟩ := h.own c f (hent1 c f hc hcf)
+      obtain ⟨h1, h2⟩ := hother c j hc hj
+      refine ⟨j, by rw [hget, if_neg hc]; exact hj, ?_⟩
+      unfold subKeys; rw [(hoth j h1 h2).subs]; exact hf
+  · intro k
+    show KeyOK (getObj G k)
+    rcases hcases k with rfl | ⟨_, h2⟩ | ⟨h1, h2⟩
+    · exact hiG.2.2.2.1
+    · intro fs hfs
+      rw [(he k h2).2.2.1] at hfs; cases hfs
+    · unfold KeyOK; rw [(hoth k h1 h2).subs]; exact h.key k
+  · intro k
+    show (getObj G k).isOpen = !(getObj G k).stopped
+    rcases hcases k with rfl | ⟨_, h2⟩ | ⟨h1, h2⟩
+    · exact hiG.2.2.1
+    · rw [(he k h2).1, (he k h2).2.2.2]; rfl
+    · exact (hoth k h1 h2).os (h.os k)
+  · intro k hk
+    replace hk : (getObj G k).takenOver = true := hk
+    show (getObj G k).stopped = true
+    rcases hcases k with rfl | ⟨_, h2⟩ | ⟨h1, h2⟩
+    · rw [hiG.2.1] at hk; cases hk
+    · exact (he k h2).1
+    · rw [(hoth k h1 h2).takenOver] at hk
+      exact (hoth k h1 h2).stop (h.ts k hk)
+  · intro k hk ha ht _ hs1
+    replace hk : k < G.objs.length := hk
+    replace ha : Active G k := ha
+    replace ht : (getObj G k).takenOver = false := ht
+    replace hs1 : ¬ Stage1 G k := hs1
+    show assocGet (assocSet G.clients cid i) (getObj G k).id = some k
+    rcases hcases k with rfl | ⟨_, h2⟩ | ⟨h1, h2⟩
+    · rw [hget, if_pos hiG.1]
+    · rw [(he k h2).2.1] at ht; cases ht
+    · have q := hoth k h1 h2
+      rw [q.takenOver] at ht
+      rw [hlen] at hk
+      have hold := h.reg k hk (Active.mono hpk hpe q.stop ha) ht h1
+        (fun ⟨p, hp, a, b⟩ => hs1 ⟨p, by rw [hpend]; exact hp, a, b⟩)
+      rw [q.id, hget]
+      have hne : (getObj s1 k).id ≠ cid := fun e => h2 (e ▸ hold)
+      rw [if_neg hne]; exact hold
+  · intro c k hk
+    replace hk : assocGet (assocSet G.clients cid i) c = some k := hk
+    show (getObj G k).takenOver = false
+    rw [hget] at hk
+    split at hk
+    · cases hk; exact hiG.2.1
+    · rename_i hc
+      obtain ⟨h1, h2⟩ := hother c k hc hk
+      rw [(hoth k h1 h2).takenOver]; exact h.regTO c k hk
+  · intro k hk
+    show k < G.objs.length
+    replace hk : k ∈ G.parked ∨ k ∈ G.parkedEarly := hk
+    rw [hpk, hpe] at hk
+    rw [hlen]; exact h.parkedLt k hk
+  · intro k hk
+    replace hk : k ∈ G.parked := hk
+    show k ∉ G.parkedEarly
+    rw [hpk] at hk
+    rw [hpe]; exact h.disj k hk
+  · intro k hk
+    replace hk : k ∈ G.parked := hk
+    show (getObj G k).stopped = true
+    rw [hpk] at hk
+    have hold := h.parkedStopped k hk
+    rcases hcases k with rfl | ⟨_, h2⟩ | ⟨h1, h2⟩
+    · exact hiG.2.2.2.2 hold
+    · exact (he k h2).1
+    · exact (hoth k h1 h2).stop hold
+  · intro p hp
+    replace hp : p ∈ G.pending := hp
+    show p.obj ∉ G.parked ∧ p.obj ∉ G.parkedEarly
+    rw [hpend] at hp
+    rw [hpk, hpe]; exact h.pendFree p hp
+  · intro p hp hs
+    replace hp : p ∈ G.pending := hp
+    rw [hpend] at hp
+    obtain ⟨a, b⟩ := h.st1 p hp hs
+    refine ⟨fun c hc => ?_, ?_⟩
+    · replace hc : assocGet (assocSet G.clients cid i) c = some p.obj := hc
+      rw [hget] at hc
+      split at hc
+      · cases hc; exact hpi p hp rfl
+      · exact a c hc
+    · show (getObj G p.obj).takenOver = false
+      rw [(hoth p.obj (hpi p hp) (a cid)).takenOver]; exact b
+  · show (G.pending.map (·.obj)).Nodup
+    rw [hpend]; exact h.pendNodup
+  · intro p hp
+    replace hp : p ∈ G.pending := hp
+    show assocGet G.connOf p.conn = some p.obj
+    rw [hpend] at hp
+    rw [hconn]; exact h.pendConn p hp
+
+/-! ### `inheritClientSession` -/
+
+/-- the server fields the invariant reads besides the objects and the topic index -/
+structure Same (s s' : Server) : Prop where
+  len : s'.objs.length = s.objs.length
+  connOf : s'.connOf = s.connOf
+  clients : s'.clients = s.clients
+  pending : s'.pending = s.pending
+  parked : s'.parked = s.parked
+  parkedEarly : s'.parkedEarly = s.parkedEarly
+
+theorem Same.refl (s : Server) : Same s s := ⟨rfl, rfl, rfl, rfl, rfl, rfl⟩
+theorem Same.trans {s s1 s2 : Server} (h : Same s s1) (g : Same s1 s2) : Same s s2 :=
+  ⟨g.len.trans h.len, g.connOf.trans h.connOf, g.clients.trans h.clients, g.pending.trans h.pending,
+   g.parked.trans h.parked, g.parkedEarly.trans h.parkedEarly⟩
+theorem Quiet.same {s s' : Server} (h : Quiet s s') : Same s s' :=
+  ⟨h.len, h.connOf, h.clients, h.pending, h.parked, h.parkedEarly⟩
+theorem Own.same {i : Nat} {s s' : Server} (h : Own i s s') : Same s s' :=
+  ⟨h.len, h.connOf, h.clients, h.pending, h.parked, h.parkedEarly⟩
+theorem same_setObj (s : Server) (e : Nat) (c : Client) : Same s (setObj s e c) :=
+  ⟨setObj_length s e c, rfl, rfl, rfl, rfl, rfl⟩
+
+theorem disconnectClient_stopped (s : Server) (e code : Nat) (he : e < s.objs.length) :
+    (getObj (disconnectClient s e code).1 e).stopped = true := by
+  unfold disconnectClient
+  extract_lets +onlyGivenNames c w
+  split
+  rename_i s' o heq
+  have := stopClient_stopped s e he
+  rw [heq] at this
+  exact this
+
+/-- one iteration of the loop of `inheritClientSession` that re-subscribes the new object `i` -/
+def inheritStep (cid : Str) (i : Nat) (s : Server) (fs : Str × Sub) : Server :=
+  let rr := subscribe s.topics cid fs.2
+  let s := { s with topics := rr.1, info := if rr.2 then { s.info with subs := s.info.subs + 1 } else s.info }
+  modObj s i (fun x => { x with subs := assocSet x.subs fs.2.filter fs.2 })
+
+theorem inheritStep_eq (cid : Str) (i : Nat) (b : Server) (fs : Str × Sub) :
+    ∃ n, inheritStep cid i b fs = modObj { b with topics := (subscribe b.topics cid fs.2).1, info := n } i
+      (fun x => { x with subs := assocSet x.subs fs.2.filter fs.2 }) := ⟨_, rfl⟩
+
+/-- the loop of `inheritClientSession` that re-subscribes the new object `i` to the old session's filters -/
+theorem inheritFold_spec (cid : Str) (i : Nat) (l : List (Str × Sub)) (b : Server) (hi : i < b.objs.length)
+    (hid : (getObj b i).id = cid) :
+    Own i b (l.foldl (inheritStep cid i) b) ∧
+    (∀ f ∈ subKeys (getObj b i), f ∈ subKeys (getObj (l.foldl (inheritStep cid i) b) i)) ∧
+    (∀ fs ∈ l, fs.2.filter ∈ subKeys (getObj (l.foldl (inheritStep cid i) b) i)) := by
+  induction l generalizing b with
+  | nil => exact ⟨Own.refl i b, fun f hf => hf, fun fs hfs => by cases hfs⟩
+  | cons fs rest ih =>
+    rw [List.foldl_cons]
+    obtain ⟨n0, hn0⟩ := inheritStep_eq cid i b fs
+    rw [hn0]
+    have key : Own i b (modObj { b with topics := (subscribe b.topics cid fs.2).1, info := n0 } i
+        (fun x => { x with subs := assocSet x.subs fs.2.filter fs.2 })) := by
+      have := subscribeStep_own b i hi fs.2 n0
+      rw [hid] at this
+      exact this
+    have hself : getObj (modObj { b with topics := (subscribe b.topics cid fs.2).1, info := n0 } i
+        (fun x => { x with subs := assocSet x.subs fs.2.filter fs.2 })) i =
+        { getObj b i with subs := assocSet (getObj b i).subs fs.2.filter fs.2 } :=
+      getObj_setObj_eq { b with topics := (subscribe b.topics cid fs.2).1, info := n0 } i _ hi
+    obtain ⟨o, hk, hl⟩ := ih _ (by rw [key.len]; exact hi) (by rw [key.id]; exact hid)
+    refine ⟨key.trans o, fun f hf => hk f ?_, fun fs' hfs' => ?_⟩
+    · rw [hself]
+      exact mem_keys_assocSet_of_mem _ _ _ _ hf
+    · rcases List.mem_cons.mp hfs' with e | e
+      · subst e
+        apply hk
+        rw [hself]
+        exact mem_keys_assocSet_self _ _ _
+      · exact hl fs' e
+
+theorem unsubscribeClient_of_takenOver (s : Server) (e : Nat) (h : (getObj s e).takenOver = true) :
+    unsubscribeClient s e = setObj s e { getObj s e with subs := [] } := by
+  unfold unsubscribeClient
+  simp only [h, if_true]
+
+theorem isOpen_false_of {c : Client} (hos : c.isOpen = !c.stopped) (hst : c.stopped = true) : c.isOpen = false := by
+  rw [hos, hst]; rfl
+
+/-- `attachClient` from the point the client is admitted up to and including `Clients.Add` -/
+theorem admitA_inv {s : Server} {i : Nat} {k : Connect} (h : SyncInvX (· = i) s) (hw : WF s)
+    (hi : i < s.objs.length) (hid : (getObj s i).id = k.id) (hunreg : ∀ c, assocGet s.clients c ≠ some i)
+    (hpi : ∀ p ∈ s.pending, p.obj ≠ i) (hto : (getObj s i).takenOver = false) :
+    SyncInv (admitA s i k).1 ∧ Lst s (admitA s i k).1 := by
+  unfold admitA
+  extract_lets +onlyGivenNames src s0 exLive
+  have q0 : Quiet s s0 := (Quiet.refl s).upd8
+  have w0 : WF s0 := hw.upd rfl rfl rfl rfl
+  have h0 : SyncInvX (· = i) s0 := h.of_quiet q0
+  split
+  rename_i s' o1 present heq
+  show SyncInv { s' with clients := assocSet s'.clients k.id i } ∧ Lst s { s' with clients := assocSet s'.clients k.id i }
+  split at heq
+  · rename_i e hce
+    have hce : assocGet s.clients k.id = some e := hce
+    extract_lets +onlyGivenNames ex at heq
+    split at heq
+    rename_i sD o hd
+    have qD : Quiet s sD := by
+      have := disconnectClient_quiet s0 e 0x8E
+      rw [hd] at this
+      exact q0.trans this
+    have wD : WF sD := by
+      have := disconnectClient_wf s0 e 0x8E w0
+      rw [hd] at this; exact this
+    have hD : SyncInvX (· = i) sD := h.of_quiet qD
+    have he_lt : e < s.objs.length := (hw.clients_valid k.id e (assocGet_mem _ _ _ hce)).1
+    have hei : e ≠ i := fun x => hunreg k.id (x ▸ hce)
+    have hstD : (getObj sD e).stopped = true := by
+      have := disconnectClient_stopped s0 e 0x8E he_lt
+      rw [hd] at this; exact this
+    have hregD : assocGet sD.clients k.id = some e := by rw [qD.clients]; exact hce
+    have htoD : (getObj sD e).takenOver = false := hD.regTO _ _ hregD
+    have hidD : (getObj sD e).id = k.id := (wD.clients_valid k.id e (assocGet_mem _ _ _ hregD)).2
+    have hunregD : ∀ c, assocGet sD.clients c ≠ some i := by rw [qD.clients]; exact hunreg
+    have hpiD : ∀ p ∈ sD.pending, p.obj ≠ i := by rw [qD.pending]; exact hpi
+    have hiD : i < sD.objs.length := by rw [qD.len]; exact hi
+    have heD : e < sD.objs.length := by rw [qD.len]; exact he_lt
+    have hne_iff : ∀ k', assocGet sD.clients k.id ≠ some k' → k' ≠ e := fun k' hk' x => hk' (x ▸ hregD)
+    split at heq
+    · -- Clean Start (or the old session was an MQTT 3 clean session): the old session is discarded
+      extract_lets +onlyGivenNames s2 s3 at heq
+      cases heq
+      have o2 : Own e sD s2 := unsubscribeClient_own sD e htoD
+      have q3 : Quiet s2 s3 := clearInflights_quiet s2 e
+      have o3 : Own e sD s3 := o2.quiet q3
+      have he3 : e < s3.objs.length := by rw [o3.len]; exact heD
+      have hGe : getObj (modObj s3 e (fun x => { x with takenOver := true })) e =
+          { getObj s3 e with takenOver := true } := getObj_setObj_eq s3 e _ he3
+      have hGk : ∀ k', k' ≠ e → getObj (modObj s3 e (fun x => { x with takenOver := true })) k' = getObj s3 k' :=
+        fun k' hk' => getObj_setObj_ne s3 e k' _ hk'
+      have hsubs3 : (getObj s3 e).subs = [] := by
+        rw [(q3.obj e).subs]; exact unsubscribeClient_subs sD e heD
+      have sm : Same sD (modObj s3 e (fun x => { x with takenOver := true })) := o3.same.trans (same_setObj s3 e _)
+      refine ⟨SyncInvX.register hD wD hunregD hpiD sm.len sm.connOf sm.clients sm.pending sm.parked sm.parkedEarly
+        ?_ ?_ ?_ (o3.idx hD.idx) ?_ ?_, ⟨?_, ?_⟩⟩
+      · intro k' hk'i hk'
+        rw [hGk k' (hne_iff k' hk')]
+        exact o3.other k' (hne_iff k' hk')
+      · intro e' he'
+        rw [hregD] at he'
+        cases he'
+        rw [hGe]
+        exact ⟨o3.stop hstD, rfl, hsubs3, isOpen_false_of (o3.os (hD.os e)) (o3.stop hstD)⟩
+      · rw [hGk i hei.symm]
+        have q := o3.other i hei.symm
+        refine ⟨q.id.trans ((qD.obj i).id.trans hid), q.takenOver.trans ((qD.obj i).takenOver.trans hto),
+          q.os (hD.os i), ?_, q.stop⟩
+        unfold KeyOK; rw [q.subs]; exact hD.key i
+      · intro c f hc hcf
+        exact o3.ent_other hD.idx c f (by rw [hidD]; exact hc) hcf
+      · intro f hcf
+        have hcf' : Entry s3.topics (getObj sD e).id f := by rw [hidD]; exact hcf
+        exfalso
+        rcases o3.ent_own hD.idx f hcf' with ⟨e0, k0⟩ | k1
+        · rw [hidD] at e0
+          obtain ⟨j, hj, hf⟩ := hD.own _ f e0
+          rw [hregD] at hj
+          cases hj
+          have := k0 hf
+          unfold subKeys at this
+          rw [hsubs3] at this
+          cases this
+        · unfold subKeys at k1
+          rw [hsubs3] at k1
+          cases k1
+      · show (modObj s3 e (fun x => { x with takenOver := true })).parked = s.parked
+        rw [sm.parked, qD.parked]
+      · show (modObj s3 e (fun x => { x with takenOver := true })).parkedEarly = s.parkedEarly
+        rw [sm.parkedEarly, qD.parkedEarly]
+    · -- the session is inherited
+      extract_lets +onlyGivenNames s2 ex2 rmx s2i src2 s3 s4 s5 s6 at heq
+      rw [← (Prod.mk.inj heq).1]
+      -- s2: the old object is marked taken over
+      have hs2e : getObj s2 e = { getObj sD e with takenOver := true } := getObj_setObj_eq sD e _ heD
+      have hs2k : ∀ k', k' ≠ e → getObj s2 k' = getObj sD k' := fun k' hk' => getObj_setObj_ne sD e k' _ hk'
+      have sm2 : Same sD s2 := same_setObj sD e _
+      have hex2 : ex2.subs = (getObj sD e).subs := by
+        show (getObj s2 e).subs = _
+        rw [hs2e]
+      -- s3: the in-flight messages are copied
+      have q23 : Quiet s2 s3 := by
+        show Quiet s2 (if ex2.inflight.length > 0 then _ else s2)
+        split
+        · have q2i : Quiet s2 s2i := (Quiet.refl s2).mod i _ (by qc_rfl)
+          exact q2i.upd8
+        · exact Quiet.refl s2
+      have hi3 : i < s3.objs.length := by rw [q23.len, sm2.len]; exact hiD
+      have hid3 : (getObj s3 i).id = k.id := by
+        rw [(q23.obj i).id, hs2k i hei.symm, (qD.obj i).id]; exact hid
+      -- s4: the subscriptions are copied
+      obtain ⟨o34, _, hkeys⟩ := inheritFold_spec k.id i ex2.subs s3 hi3 hid3
+      have hs4 : s4 = ex2.subs.foldl (inheritStep k.id i) s3 := rfl
+      rw [← hs4] at o34 hkeys
+      -- s5, s6: the old object is emptied
+      have hto4 : (getObj s4 e).takenOver = true := by
+        rw [(o34.other e hei).takenOver, (q23.obj e).takenOver, hs2e]
+      have hs5 : s5 = setObj s4 e { getObj s4 e with subs := [] } := unsubscribeClient_of_takenOver s4 e hto4
+      have he4 : e < s4.objs.length := by rw [o34.len, q23.len, sm2.len]; exact heD
+      have hs5e : getObj s5 e = { getObj s4 e with subs := [] } := by rw [hs5]; exact getObj_setObj_eq s4 e _ he4
+      have hs5k : ∀ k', k' ≠ e → getObj s5 k' = getObj s4 k' := by
+        intro k' hk'; rw [hs5]; exact getObj_setObj_ne s4 e k' _ hk'
+      have sm5 : Same s4 s5 := by rw [hs5]; exact same_setObj s4 e _
+      have ht5 : s5.topics = s4.topics := by rw [hs5]; rfl
+      have q56 : Quiet s5 s6 := clearInflights_quiet s5 e
+      have sm : Same sD s6 := ((sm2.trans q23.same).trans o34.same).trans (sm5.trans q56.same)
+      -- the old object through the chain
+      have hst4 : (getObj s4 e).stopped = true := by
+        apply (o34.other e hei).stop
+        apply (q23.obj e).stop
+        rw [hs2e]; exact hstD
+      have hos4 : (getObj s4 e).isOpen = !(getObj s4 e).stopped := by
+        apply (o34.other e hei).os
+        apply (q23.obj e).os
+        rw [hs2e]; exact hD.os e
+      -- the new object through the chain
+      have hi_id4 : (getObj s4 i).id = k.id := o34.id.trans hid3
+      have hi_to4 : (getObj s4 i).takenOver = false := by
+        rw [o34.takenOver, (q23.obj i).takenOver, hs2k i hei.symm, (qD.obj i).takenOver]; exact hto
+      have hi_os4 : (getObj s4 i).isOpen = !(getObj s4 i).stopped := by
+        apply o34.os
+        apply (q23.obj i).os
+        rw [hs2k i hei.symm]; exact hD.os i
+      have hi_key4 : KeyOK (getObj s4 i) := by
+        apply o34.key
+        unfold KeyOK
+        rw [(q23.obj i).subs, hs2k i hei.symm]; exact hD.key i
+      have hi_stop4 : (getObj sD i).stopped = true → (getObj s4 i).stopped = true := by
+        intro x
+        apply o34.stop
+        apply (q23.obj i).stop
+        rw [hs2k i hei.symm]; exact x
+      have q6i := q56.obj i
+      have hidx4 : IdxOK s4.topics := o34.idx (q23.idx hD.idx)
+      have hent6 : ∀ c f, Entry s6.topics c f → Entry s4.topics c f := by
+        intro c f hcf
+        have := (Entry.congr q56.plain q56.shared c f).mp hcf
+        rw [ht5] at this; exact this
+      have hent3 : ∀ c f, Entry s3.topics c f → Entry sD.topics c f := by
+        intro c f hcf
+        exact (Entry.congr q23.plain q23.shared c f).mp hcf
+      refine ⟨SyncInvX.register hD wD hunregD hpiD sm.len sm.connOf sm.clients sm.pending sm.parked sm.parkedEarly
+        ?_ ?_ ?_ ?_ ?_ ?_, ⟨?_, ?_⟩⟩
+      · intro k' hk'i hk'
+        have hk'e := hne_iff k' hk'
+        refine ((QC.of_eq (hs2k k' hk'e).symm).trans (q23.obj k')).trans ?_
+        refine (o34.other k' hk'i).trans ?_
+        exact (QC.of_eq (hs5k k' hk'e).symm).trans (q56.obj k')
+      · intro e' he'
+        rw [hregD] at he'
+        cases he'
+        have q := q56.obj e
+        have hst5 : (getObj s5 e).stopped = true := by rw [hs5e]; exact hst4
+        have hos5 : (getObj s5 e).isOpen = !(getObj s5 e).stopped := by rw [hs5e]; exact hos4
+        refine ⟨q.stop hst5, ?_, ?_, isOpen_false_of (q.os hos5) (q.stop hst5)⟩
+        · rw [q.takenOver, hs5e]; exact hto4
+        · rw [q.subs, hs5e]
+      · rw [show getObj s5 i = getObj s4 i from hs5k i hei.symm] at q6i
+        refine ⟨q6i.id.trans hi_id4, q6i.takenOver.trans hi_to4, q6i.os hi_os4, ?_, fun x => q6i.stop (hi_stop4 x)⟩
+        unfold KeyOK; rw [q6i.subs]; exact hi_key4
+      · exact q56.idx (by rw [ht5]; exact hidx4)
+      · intro c f hc hcf
+        exact hent3 c f (o34.ent_other (q23.idx hD.idx) c f (by rw [hid3]; exact hc) (hent6 c f hcf))
+      · intro f hcf
+        have h4 : Entry s4.topics (getObj s3 i).id f := by rw [hid3]; exact hent6 _ f hcf
+        have hk6 : subKeys (getObj s6 i) = subKeys (getObj s4 i) := by
+          unfold subKeys
+          rw [(q56.obj i).subs, hs5k i hei.symm]
+        rw [hk6]
+        rcases o34.ent_own (q23.idx hD.idx) f h4 with ⟨e0, _⟩ | k1
+        · rw [hid3] at e0
+          obtain ⟨j, hj, hf⟩ := hD.own _ f (hent3 _ f e0)
+          rw [hregD] at hj
+          cases hj
+          obtain ⟨fs, hfs, hfk⟩ := List.mem_map.mp hf
+          have hko := hD.key e fs hfs
+          rw [← hfk, ← hko]
+          exact hkeys fs (by rw [hex2]; exact hfs)
+        · exact k1
+      · show s6.parked = s.parked
+        rw [sm.parked, qD.parked]
+      · show s6.parkedEarly = s.parkedEarly
+        rw [sm.parkedEarly, qD.parkedEarly]
+  · -- no session under that id
+    rename_i hce
+    have hce : assocGet s.clients k.id = none := hce
+    cases heq
+    refine ⟨SyncInvX.register h0 w0 hunreg hpi rfl rfl rfl rfl rfl rfl (fun k' _ _ => QC.refl _) ?_ ?_ h0.idx
+      (fun c f _ hcf => hcf) ?_, ⟨rfl, rfl⟩⟩
+    · intro e' he'
+      have : assocGet s.clients k.id = some e' := he'
+      rw [hce] at this; cases this
+    · exact ⟨hid, hto, h.os i, h.key i, fun x => x⟩
+    · intro f hcf
+      obtain ⟨j, hj, _⟩ := h.own _ f hcf
+      rw [hce] at hj; cases hj
+
 end Mochi.Broker
